@@ -107,7 +107,9 @@ def select(meta, prop, tier, seed, known):
     if os.path.exists(bpath):
         base = json.load(open(bpath))
         for h in hs:
-            if h.get("fn_hash") and base.get(h.get("instruction")) != h["fn_hash"] and len(picked) < 40:
+            changed = h.get("fn_hash") and base.get(h.get("instruction")) != h["fn_hash"]
+            changed = changed or any(base.get("file::" + d) != v for d, v in (h.get("dep_hashes") or {}).items())
+            if changed and len(picked) < 40:
                 picked.append(h)
                 total += cost(h)
     # harnesses attached to known findings next (they must keep printing KNOWN-FINDING)
